@@ -89,36 +89,25 @@ pub fn ops_entry(old: &str, new: &str) -> Value {
     json!({"old": old, "new": new, "ops": diff.ops().iter().map(op_json).collect::<Vec<_>>()})
 }
 
-/// character-diff oracle entries for every (removed, added) pair of each change group of a diff text
+/// character-diff oracle entries for every (removed line, added line) pair of a diff text: the walk
+/// may pair a removed line with any later added line (pending removals survive non-context lines)
 pub fn ops_for_diff(diff: &str) -> Vec<Value> {
     let mut out = vec![];
     let mut seen = HashSet::new();
     let mut rem: Vec<&str> = vec![];
-    let mut add: Vec<&str> = vec![];
-    let mut flush = |rem: &mut Vec<&str>, add: &mut Vec<&str>, out: &mut Vec<Value>| {
-        for r in rem.iter() {
-            for a in add.iter() {
+    for line in diff.lines() {
+        if let Some(r) = line.strip_prefix('-') {
+            rem.push(r);
+        } else if let Some(a) = line.strip_prefix('+') {
+            for r in rem.iter() {
                 if seen.insert((r.to_string(), a.to_string())) {
                     out.push(ops_entry(r, a));
                 }
             }
-        }
-        rem.clear();
-        add.clear();
-    };
-    for line in diff.lines() {
-        if let Some(r) = line.strip_prefix('-') {
-            if !add.is_empty() { flush(&mut rem, &mut add, &mut out); }
-            rem.push(r);
-        } else if let Some(a) = line.strip_prefix('+') {
-            add.push(a);
-        } else if line.starts_with('\\') {
-            // "\ No newline at end of file" does not end a group
-        } else {
-            flush(&mut rem, &mut add, &mut out);
+        } else if line.starts_with("diff --git ") {
+            rem.clear();
         }
     }
-    flush(&mut rem, &mut add, &mut out);
     out
 }
 
